@@ -78,7 +78,7 @@ def _workload(exe, cfg, seed, tier):
             its = rand_rsched(rng, len(inp) // 2 + 1, 0.3)
             if rng.random() < 0.4:       # a hard failure of any kind, with or without a message, somewhere in the schedule
                 pos = rng.randrange(len(its) + 1)
-                its = its[:pos] + [fail_item(rng.choice(USER_KINDS + (15, 16)), rand_msg(rng))] + its[pos:]
+                its = its[:pos] + [fail_item(rng.choice(USER_KINDS + (14, 15, 16)), rand_msg(rng))] + its[pos:]
             sch = sched_s(its)
             entry = rng.choice(('deserialize_reader', 'try_from_reader', 'from_reader'))
             cid3 = '%s_%d_r' % (cid, i)
@@ -86,7 +86,7 @@ def _workload(exe, cfg, seed, tier):
             lines.append(case_line(cid3, 'decr', tid, sexp(t), entry, hx(inp), sch))
             meta[cid3] = k
             mlines.append((k, case_line('K', 'decr', tid, sexp(t), strict, shim, entry, hx(inp), sch)))
-        for w in ('b:%d' % rng.randrange(L + 2), 's:' + sched_s(rand_wsched(rng, L + 1, 0.3) + ([fail_item(rng.choice(USER_KINDS + (15, 16)), rand_msg(rng))] if rng.random() < 0.5 else []))):
+        for w in ('b:%d' % rng.randrange(L + 2), 's:' + sched_s(rand_wsched(rng, L + 1, 0.3) + ([fail_item(rng.choice(USER_KINDS + (14, 15, 16)), rand_msg(rng))] if rng.random() < 0.5 else []))):
             cid4 = '%s_w%s' % (cid, w[0])
             k = 'encw %s %s %s' % (rust(t), tagged(v), tagged(w, 60))
             lines.append(case_line(cid4, 'encw', tid, sexp(t), v, w))
